@@ -696,14 +696,18 @@ def gen_fltm(r, n, tier):
 
 # life r<min ms>.<max ms> m<max timeouts|0> t<request timeout ms> [tls:]<behaviours> <stops>
 #   behaviours: `/`-joined, one per connection attempt, the last one repeats, `b*n` = n attempts:
-#     refuse | close | garbage | silent | serve; with `tls:` (TLS client) refuse | hsclose |
-#     hsgarbage | hscert (handshake fails after the TCP connect succeeded) | serve | close
+#     refuse | close | garbage | silent | serve | serve<k> (k requests served, then the peer closes)
+#     | serve<k>w (the peer closes when request k+1 arrives); with `tls:` (TLS client) refuse |
+#     hsclose | hsgarbage | hscert (handshake fails after the TCP connect succeeded) | serve | close
 #   stops: `,`-joined, `-` or `+`-joined actions E D S X R L<0..3> (set_decode_level),
-#     `stop*n` = n copies; one stop per listener callback / idle period (PROTOCOL.md, "life")
+#     `stop*n` = n copies; one stop per listener callback / idle period, the stops left when the
+#     task has ended are performed on the handles of the ended task (PROTOCOL.md, "life")
 # life: attempts that end in `handle_failed_connection` (refused connect; TLS: the TCP connect
 # succeeds and the handshake fails because the peer closes / sends garbage / presents the wrong
 # certificate)
 LIFE_FAILS = ("refuse", "hsclose", "hsgarbage", "hscert")
+# returned by a `choose` callback of life_case: draw this stop at random
+LIFE_RANDOM = "random"
 
 
 def life_expand(items):
@@ -718,20 +722,47 @@ def life_expand(items):
     return out
 
 
-class LifeSim:
-    """coarse mirror of the lifecycle model, used ONLY to keep generated scripts away from
-    schedules the harness cannot force deterministically (never used for verdicts).
-    Commands other than E D S R (i.e. the decode-level changes L<n>) are consumed without effect
-    in every phase."""
+def life_serve_limit(b):
+    """`serve<k>` -> (k, False), `serve<k>w` -> (k, True), anything else -> None"""
+    if not b or not b.startswith("serve") or b == "serve":
+        return None
+    rest = b[5:]
+    wait = rest.endswith("w")
+    digits = rest[:-1] if wait else rest
+    return (int(digits), wait) if digits.isdigit() else None
 
-    def __init__(self, behaviours, maxto):
+
+class LifeSim:
+    """coarse mirror of the lifecycle model, used ONLY to shape generated scripts (where the
+    task is probably blocked, how many actions a stop can take without the harness racing the
+    task); never used for verdicts.
+    Commands other than E D S R (i.e. the decode-level changes L<n>) are consumed without effect
+    in every phase.  Where the peer's EOF / garbage races a queued command (`select!` in
+    `ClientLoop::poll`) the mirror takes one resolution (`pick`) and is `uncertain` from then on:
+    the positions it predicts may be off, so later stops carry at most one action (safe at a
+    callback, while the task is idle and after its end alike)."""
+
+    def __init__(self, behaviours, maxto, pick=None, rmin=30, rmax=120):
+        self.rmin, self.rmax = rmin, rmax
+        self.fails = 0          # failed attempts since the last connection
+        self.wait_ms = 0        # announced delays so far (estimate of the time spent waiting)
         self.enabled = False
         self.queue = []
         self.handles = True
         self.behaviours = life_expand(behaviours)
         self.maxto = maxto
         self.tcount = 0
+        self.served = 0
+        self.uncertain = False
+        self.pick = pick or (lambda: True)
         self.pos = ("gate", "Disabled", "waitEnabled", None)
+
+    def gone(self, b):
+        """the peer has closed / sent garbage: the socket branch of poll is ready"""
+        if b in ("close", "garbage"):
+            return True
+        lim = life_serve_limit(b)
+        return lim is not None and not lim[1] and self.served >= lim[0]
 
     def next_behaviour(self):
         if len(self.behaviours) > 1:
@@ -772,15 +803,35 @@ class LifeSim:
                     continue
                 b = self.cur
                 if b in LIFE_FAILS:
+                    self.wait_ms += min(min(self.rmin, self.rmax) * 2 ** min(self.fails, 20), self.rmax)
+                    self.fails += 1
                     return ("gate", "WaitFail", "failFor", None)
+                self.fails = 0
                 return ("gate", "Connected", "sessionStart", b)
             if phase == "sessionStart":
                 self.tcount = 0
+                self.served = 0
                 phase = "session"
                 continue
             if phase == "session":
-                if b in ("close", "garbage"):
-                    return ("gate", "WaitDisc", "failFor", None)
+                if self.gone(b):
+                    if not self.queue and self.handles:
+                        return ("gate", "WaitDisc", "failFor", None)
+                    # the race: EOF / garbage against the command queue (or the loss of all handles)
+                    self.uncertain = True
+                    if self.pick():
+                        return ("gate", "WaitDisc", "failFor", None)
+                    if not self.queue:
+                        return ("gate", "Shutdown", "finished", None)
+                    c = self.queue.pop(0)
+                    if c == "D":
+                        self.enabled = False
+                        phase = "afterDisable"
+                    elif c == "S":
+                        return ("gate", "Shutdown", "finished", None)
+                    elif c == "R":
+                        return ("gate", "WaitDisc", "failFor", None)
+                    continue
                 if not self.queue:
                     return ("idle", "session", b) if self.handles else ("gate", "Shutdown", "finished", None)
                 c = self.queue.pop(0)
@@ -790,17 +841,23 @@ class LifeSim:
                 elif c == "S":
                     return ("gate", "Shutdown", "finished", None)
                 elif c == "R":
-                    if b == "serve":
-                        self.tcount = 0
-                    else:
+                    lim = life_serve_limit(b)
+                    if b == "silent":
                         self.tcount += 1
                         if self.maxto and self.tcount >= self.maxto:
                             return ("gate", "WaitDisc", "failFor", None)
+                    elif lim is not None and lim[1] and self.served >= lim[0]:
+                        return ("gate", "WaitDisc", "failFor", None)
+                    else:
+                        self.tcount = 0
+                        self.served += 1
                 continue
         return ("done",)
 
     def stop(self, acts):
         if self.pos[0] == "done":
+            if "X" in acts:
+                self.handles = False
             return
         for a in acts:
             if not self.handles:
@@ -815,32 +872,48 @@ class LifeSim:
             self.pos = self.advance(self.pos[1], self.pos[2])
 
 
-def life_allowed(sim):
+def life_allowed(sim, tls=False):
     """(max number of actions, allowed alphabet) at the current stop; `L` stands for L0..L3
     (set_decode_level), allowed wherever the other actions are"""
+    if not sim.handles:
+        return 0, []
     if sim.pos[0] == "done":
-        return 0, []
-    if sim.pos[0] == "idle":
+        # on the handles of the ended task
+        return (1 if sim.uncertain else 3), ["E", "D", "S", "X", "R", "R", "L"]
+    if sim.pos[0] == "idle" or sim.uncertain:
         return 1, ["E", "D", "S", "X", "R", "L"]
-    if sim.pos[1] == "Connected" and sim.pos[3] in ("close", "garbage"):
-        return 0, []        # EOF/garbage and a queued command would race in select!
+    if sim.pos[1] == "Connected" and sim.pos[3] == "close" and tls:
+        return 0, []        # TLS: how the lost stream fails a request in flight is not modelled
     if sim.pos[1] == "Shutdown":
-        return 0, []
+        return 2, ["E", "D", "S", "X", "R", "R", "L"]
     return 3, ["E", "D", "S", "X", "R", "R", "L"]
 
 
-def life_case(r, behaviours, maxto, nstops, rmin=30, rmax=120, choose=None, tls=False, lweight=2):
+def life_case(r, behaviours, maxto, nstops, rmin=30, rmax=120, choose=None, tls=False, lweight=2, after=0, max_idle=4):
     """behaviours / stops may use the `x*n` shorthand; `tls`: the TLS client (behaviours out of
-    refuse hsclose hsgarbage hscert serve close); `lweight`: weight of L among the random actions"""
-    sim = LifeSim(behaviours, maxto)
+    refuse hsclose hsgarbage hscert serve close); `lweight`: weight of L among the random actions;
+    `after`: number of stops generated for the handles of the ended task; `max_idle`: the script
+    ends before the stop that would be its (max_idle+1)-th idle period (450 ms each; the harness
+    appends two more stops), or earlier if the announced delays have used up the time"""
+    sim = LifeSim(behaviours, maxto, pick=lambda: r.chance(1, 2), rmin=rmin, rmax=rmax)
     stops = []
-    for k in range(nstops):
+    idles = 0
+    for k in range(nstops + after):
+        if sim.pos[0] == "idle":
+            idles += 1
+            # budget of a case: < 3 s (two more stops are appended by the harness)
+            if idles > max_idle or 450 * (idles + 2) + sim.wait_ms > 2850:
+                break
         if sim.pos[0] == "done":
+            if after <= 0:
+                break
+            after -= 1
+        elif k >= nstops:
             break
-        mx, alpha = life_allowed(sim)
-        if choose is not None:
-            acts = choose(k, mx, alpha)
-        else:
+        mx, alpha = life_allowed(sim, tls)
+        acts = LIFE_RANDOM if choose is None else choose(k, mx, alpha)
+        if acts == LIFE_RANDOM:
+            acts = []
             n = 0
             if mx:
                 # enable early so that most scripts get past the disabled state
@@ -869,10 +942,13 @@ def life_case(r, behaviours, maxto, nstops, rmin=30, rmax=120, choose=None, tls=
     return f"life r{rmin}.{rmax} m{maxto} t100 {'tls:' if tls else ''}{'/'.join(behaviours)} {','.join(stops) if stops else '-'}"
 
 
-def life_script(seq):
+def life_script(seq, then_random=False):
     """`choose` callback of life_case that plays a fixed list of stops (one list of actions per
-    stop, empty afterwards); a stop the schedule cannot force is replaced by an empty one"""
+    stop; afterwards empty stops, or random ones with `then_random`); a stop the schedule cannot
+    force is replaced by an empty one"""
     def choose(k, mx, al):
+        if k >= len(seq) and then_random:
+            return LIFE_RANDOM
         a = seq[k] if k < len(seq) else []
         if len(a) > mx or any(x[:1] not in al for x in a):
             return []
@@ -899,6 +975,10 @@ def gen_life(r, n, tier):
     yield "life r30.120 m0 t100 serve -,S"
     yield "life r30.120 m0 t100 serve X"
     yield "life r30.120 m0 t100 serve E+D+E+D"
+    # C13: a disable that arrives during a wait state is announced, also when an enable follows it
+    yield "life r30.120 m0 t100 refuse/serve E,-,D+E,-,-,-"
+    yield "life r30.120 m0 t100 close/serve E,-,-,D+E,-,-,-"
+    yield "life r200.200 m0 t100 refuse/serve E,-,-,D,-"
     # C13: set_decode_level is a setting like any other: while the channel is disabled (initially,
     # after a disable, behind a redundant disable, next to requests) it must not make the task dial
     yield "life r30.120 m0 t100 serve L1,-,E,-,-,R"
@@ -925,6 +1005,40 @@ def gen_life(r, n, tier):
     yield "life r1.2 m0 t100 refuse*300/serve/refuse E,-*600,-,R,D,E,-,-,-,-"
     yield "life r1.4 m0 t100 tls:hsclose*270/serve E,-*540,-,R"
     yield "life r0.0 m0 t100 refuse E,-*1400"
+    # C13: after the task has ended every handle reports shutdown - stops after `Shutdown`
+    yield "life r30.120 m0 t100 serve S,-,R+E+D,L1+S+R,R,X,R"
+    yield "life r30.120 m0 t100 serve E,-,-,R,S,R,R+R+R,E+R+D,L3+R"
+    yield "life r30.120 m0 t100 refuse E,-,S,-,R+L2+R,D+E+S"
+    yield "life r30.120 m0 t100 silent E,-,-,R+S,R,-,R+R,S+X+R"
+    yield "life r30.120 m0 t100 serve E,-,X,R,E"
+    yield "life r30.120 m0 t100 serve R+S+R,R,E+R,R+X,R"
+    # C13: an open connection is closed before the next state is announced, whatever ends the
+    # session (disable, shutdown, dropped handles, peer close / garbage, timeout limit)
+    yield "life r30.120 m0 t100 serve E,-,-,D,E,-,-,S"
+    yield "life r30.120 m0 t100 silent E,-,-,X"
+    yield "life r30.120 m1 t100 silent/garbage/close/serve E,-,-,R,-*8,D"
+    yield "life r30.120 m0 t100 serve E,-,R+D+R,-,E,-,D+E"
+    yield "life r30.120 m0 t100 tls:serve E,-,-,R,D,E,-,-,X"
+    yield "life r30.120 m0 t100 tls:close/serve E,-*6,R,S"
+    # C13: a command queued at the `Connected` gate races the peer's EOF / garbage (select! in
+    # ClientLoop::poll): both resolutions are admitted
+    yield "life r30.120 m0 t100 close/serve E,-,R,-,-,-"
+    yield "life r30.120 m0 t100 garbage/serve E,-,R+R,-,-,-"
+    yield "life r30.120 m0 t100 close/serve E,-,D,-,-"
+    yield "life r30.120 m0 t100 garbage/close E,-,L1+S,-"
+    yield "life r30.120 m0 t100 close E,-,X"
+    yield "life r30.120 m0 t100 garbage/serve E,-,E+L2+R,-,-,R"
+    yield "life r30.120 m0 t100 close/garbage/serve E,-,D+E,-,-,R+D,-,-"
+    # C13/C14: the connection is lost in the middle of a session: WaitAfterDisconnect(min), the
+    # request in flight fails with the transport error, the queued ones fail fast afterwards
+    yield "life r30.120 m0 t100 serve2w/serve E,-,R+R+R,-,-,R"
+    yield "life r30.120 m0 t100 serve1w/serve E,-,-,R,R,R,-,-,R"
+    yield "life r30.120 m0 t100 serve0w/serve E,-,-,R,-,-,R"
+    yield "life r30.120 m0 t100 serve1/serve E,-,-,R,-,-,R"
+    yield "life r30.120 m0 t100 serve2/serve E,-,R+R,-,-,-,R"
+    yield "life r30.120 m0 t100 serve1/serve E,-,R+R+R,-,-,-"
+    yield "life r20.160 m0 t100 refuse/refuse/serve1w/refuse/refuse/serve E,-*5,R+R,-*6,R"
+    yield "life r20.160 m0 t100 refuse/serve1/refuse/refuse/serve E,-,-,-,-,R,-*6,R"
     if tier == "thorough":
         # exhaustive: every action sequence of length <= 4 (one action per stop) for each single fault
         alphabet = [[], ["E"], ["D"], ["S"], ["X"], ["R"]]
@@ -974,15 +1088,52 @@ def gen_life(r, n, tier):
             if ok[0] and c:
                 yield c
     tls_fail = ["refuse", "hsclose", "hsclose", "hsgarbage", "hscert"]
+    beh2 = beh + ["serve", "serve0", "serve1", "serve2", "serve0w", "serve1w", "serve2w"]
     for _ in range(n):
-        kind = r.below(20)
-        if kind < 11:
+        kind = r.below(29)
+        if kind >= 20:
+            kind += 100
+        elif kind >= 11 and r.chance(1, 4):
+            kind = 100 + r.below(9)
+        if kind >= 100:
+            kind -= 100
+            if kind < 3:
+                # stops after the end of the task: reach `Shutdown` early, then act on the handles
+                bs = [r.pick(beh2) for _ in range(r.rng(1, 2))]
+                seq = []
+                if r.chance(2, 3):
+                    seq += [["E"]] + [r.pick([[], [], ["R"]]) for _ in range(r.rng(0, 3))]
+                seq += [r.pick([["S"], ["X"], ["R", "S"], ["S", "R"], ["D", "S"]])]
+                c = life_case(r, bs, r.pick([0, 1]), len(seq) + 3, after=r.rng(1, 4),
+                              choose=life_script(seq, then_random=True))
+            elif kind < 6:
+                # the peer's EOF / garbage races commands queued at the `Connected` gate
+                first = [r.pick(["close", "garbage", "serve0"])]
+                bs = ["refuse"] * r.below(2) + first + [r.pick(beh2) for _ in range(r.rng(0, 2))]
+                racing = [r.pick(["R", "R", "E", "D", "S", "X", f"L{r.below(4)}"]) for _ in range(r.rng(1, 3))]
+                seq = [["E"]] + ([[], []] if bs[0] == "refuse" else []) + [[], racing]
+                c = life_case(r, bs, r.pick([0, 1]), len(seq) + r.rng(1, 4), choose=life_script(seq, then_random=r.chance(1, 2)),
+                              rmin=r.pick([10, 30]), rmax=r.pick([60, 120]), after=r.below(2))
+            else:
+                # the connection is lost in the middle of a session, with requests in flight / queued
+                k = r.below(3)
+                first = f"serve{k}" + r.pick(["", "w", "w"])
+                bs = ["refuse"] * r.below(2) + [first] + [r.pick(beh2) for _ in range(r.rng(0, 2))]
+                seq = [["E"]] + ([[], []] if bs[0] == "refuse" else []) + [[]]
+                if r.chance(1, 2):
+                    seq += [["R"] * r.rng(1, 3)]                      # queued at the `Connected` gate
+                else:
+                    seq += [[]] + [["R"] for _ in range(r.rng(1, 3))]  # one by one, while idle
+                seq += [r.pick([[], [], ["R"], ["D"], ["R", "R"]]) for _ in range(r.rng(1, 3))]
+                c = life_case(r, bs, 0, len(seq) + r.rng(0, 2), choose=life_script(seq),
+                              rmin=r.pick([10, 30]), rmax=r.pick([60, 120]))
+        elif kind < 11:
             # plain TCP, random script (decode-level changes included)
             nb = r.rng(1, 4)
-            bs = [r.pick(beh) for _ in range(nb)]
+            bs = [r.pick(beh2 if r.chance(1, 2) else beh) for _ in range(nb)]
             c = life_case(r, bs, r.pick([0, 0, 1, 2, 3]), r.rng(2, 10),
                           rmin=r.pick([10, 30, 50]), rmax=r.pick([10, 60, 120, 200]),
-                          lweight=r.pick([1, 2, 6]))
+                          lweight=r.pick([1, 2, 6]), after=r.pick([0, 0, 1, 2]))
         elif kind < 14:
             # decode-level changes around the disabled state
             bs = [r.pick(beh) for _ in range(r.rng(1, 3))]
